@@ -4,6 +4,7 @@ import (
 	"fmt"
 	"math"
 	"math/big"
+	"slices"
 
 	"github.com/tuneinsight/lattigo/v6/core/rlwe"
 	"github.com/tuneinsight/lattigo/v6/multiparty"
@@ -345,8 +346,16 @@ func (e *env) setup() bool {
 				others = append(others, multiparty.ShamirPublicPoint(e.pts[k]))
 			}
 		}
+		listed := append([]multiparty.ShamirPublicPoint(nil), others...)
 		if !c.Try("C15|multiparty.NewCombiner", func() {
 			e.cmb[j] = multiparty.NewCombiner(e.params, multiparty.ShamirPublicPoint(e.pts[j]), others, T)
+		}) {
+			return false
+		}
+		// the caller's directory of public points is an input (callers index it afterwards)
+		c.Count("combiner_input_lists_compared", 1)
+		if !c.Check(slices.Equal(listed, others), "C15|multiparty.NewCombiner|input-list-modified", func() string {
+			return fmt.Sprintf("listed %v, after the call %v", listed, others)
 		}) {
 			return false
 		}
